@@ -93,7 +93,7 @@ class C20(Property):
             reqs = [rnd.choice([None, 0, 1, 5, 100, -3, 7.5]) for _ in range(rnd.randint(3, 12))]
             return dict(kind=kind, reqs=reqs, static_input=rnd.random() < 0.6, payload=rnd.choice(["scalar", "grid"]),
                         repush_at=rnd.randint(0, len(reqs)), units=rnd.choice([["m", "m"], ["m", "km"], ["", "1"], ["degC", "K"]]),
-                        push_time=rnd.choice([None, None, 3]), memory=rnd.choice([None, None, 0, 1000]))
+                        push_time=rnd.choice([None, None, 3]), memory=rnd.choice([None, None, 0, 1000]), early_push=rnd.random() < 0.4)
         if kind == "pull":
             spec = gen_coupling.gen_dag(rnd, cycle=None, pull_prob=1.0, max_comps=4)
             fan = rnd.random() < 0.08
@@ -159,9 +159,28 @@ class C20(Property):
             o.memory_limit, o.memory_location = spec["memory"], "spill-c20"
             out.count("static_with_memory_limit")
         inp.ping()
-        inp.exchange_info()
         pt = None if spec["push_time"] is None else T0 + H(spec["push_time"])
-        o.push_data(val.copy(), pt)
+        if spec.get("early_push"):
+            # history: publications refused before the metadata exchange / with malformed data must not use up the single publication
+            try:
+                o.push_data(val.copy(), pt)
+                out.viol("static_push_before_exchange_accepted", "static output accepted data before its info was exchanged", spec=spec)
+                return
+            except fm.FinamNoDataError:
+                out.count("static_refused_early_publications")
+        inp.exchange_info()
+        if spec.get("early_push") and val.ndim:
+            try:
+                o.push_data(np.zeros(val.size + 3), pt)
+                out.viol("static_malformed_accepted", "static output accepted data of the wrong size", spec=spec)
+                return
+            except fm.FinamDataError:
+                out.count("static_refused_malformed_publications")
+        try:
+            o.push_data(val.copy(), pt)
+        except fm.FinamStaticDataError as e:
+            out.viol("static_first_publication_refused", f"the first valid publication of a static output was refused after earlier refused attempts: {e}", spec=spec)
+            return
         out.count("static_publications")
         exp = o_convert(val, pu, cu)
         served = 0
@@ -353,7 +372,7 @@ class C20(Property):
     def coverage_gaps(self, counters, tier):
         need = ["static_requests", "static_republication_refused", "static_input_cases", "pull_compositions", "provider_requests_expected",
                 "provider_calls_checked", "chained_pull_components", "wsum_values_checked", "wsum_two_consumers", "wsum_consumers_with_different_steps",
-                "static_with_memory_limit"]
+                "static_with_memory_limit", "static_refused_early_publications", "static_refused_malformed_publications"]
         return [f"{k} never observed" for k in need if not counters.get(k)]
 
 
